@@ -109,6 +109,39 @@ def _lf(t):
     return out
 
 
+def temp_rule(ctx):
+    """mutate(resample(population, b), b) at every call site of the SMC driver (loop and final enlargement)"""
+    repo = ctx.repo
+    smc = repo.cls(SMC)
+    # ---- the temperature handed to the kernel is the one the population was just resampled to (in the loop and in the final enlargement)
+    from .smcloop import fold_sample
+    smp = smc.methods["sample"]
+    n_mut = 0
+    for final in (False, True):
+        sf = fold_sample(repo, resumed=False, final=final)
+        ctx.count("functions_folded")
+        rs = {T.strip_raise(e.result): e for e in sf.events("method:resample")}
+        for e in sf.events(".mutate"):
+            if len(e.args) < 2:
+                continue
+            inl = sf.in_loop(e.node)
+            if final == inl:
+                continue  # the loop's call site is judged in the first fold, the enlargement's in the second
+            n_mut += 1
+            pop, b = T.strip_raise(e.args[0]), e.args[1]
+            src = rs.get(pop)
+            where = "loop" if inl else "final"
+            if src is None or len(src.args) < 2:
+                ctx.unknown("C05.temp", smp.ident, loc_of(smp, e.node), f"the population handed to mutate ({T.show(pop)[:100]}) is not the result of a resample(...) call of this function", disc=where)
+                continue
+            ctx.decide(src.args[1] == b, "C05.temp", smp.ident, loc_of(smp, e.node),
+                       f"[{where}] mutate(resample(population, b), b): the kernel's target is tempered at the temperature of the population it moves ({T.show(b)[:40]})",
+                       f"[{where}] the population was resampled to temperature {T.show(src.args[1])[:80]} but the kernel is handed temperature {T.show(b)[:80]}: "
+                       "its target is the tempered density of a different temperature than the one the particles are distributed at", disc=where)
+    ctx.floor("mutate call sites of the SMC driver", n_mut, 2)
+
+
+
 def run(ctx):
     repo = ctx.repo
     smc = repo.cls(SMC)
@@ -187,32 +220,7 @@ def run(ctx):
     ctx.floor("SMC kernel targets", n_targets, 4)
     ctx.floor("kernel bindings in mutate", n_bind, 3)
 
-    # ---- the temperature handed to the kernel is the one the population was just resampled to (in the loop and in the final enlargement)
-    from .smcloop import fold_sample
-    smp = smc.methods["sample"]
-    n_mut = 0
-    for final in (False, True):
-        sf = fold_sample(repo, resumed=False, final=final)
-        ctx.count("functions_folded")
-        rs = {T.strip_raise(e.result): e for e in sf.events("method:resample")}
-        for e in sf.events(".mutate"):
-            if len(e.args) < 2:
-                continue
-            inl = sf.in_loop(e.node)
-            if final == inl:
-                continue  # the loop's call site is judged in the first fold, the enlargement's in the second
-            n_mut += 1
-            pop, b = T.strip_raise(e.args[0]), e.args[1]
-            src = rs.get(pop)
-            where = "loop" if inl else "final"
-            if src is None or len(src.args) < 2:
-                ctx.unknown("C05.temp", smp.ident, loc_of(smp, e.node), f"the population handed to mutate ({T.show(pop)[:100]}) is not the result of a resample(...) call of this function", disc=where)
-                continue
-            ctx.decide(src.args[1] == b, "C05.temp", smp.ident, loc_of(smp, e.node),
-                       f"[{where}] mutate(resample(population, b), b): the kernel's target is tempered at the temperature of the population it moves ({T.show(b)[:40]})",
-                       f"[{where}] the population was resampled to temperature {T.show(src.args[1])[:80]} but the kernel is handed temperature {T.show(b)[:80]}: "
-                       "its target is the tempered density of a different temperature than the one the particles are distributed at", disc=where)
-    ctx.floor("mutate call sites of the SMC driver", n_mut, 2)
+    temp_rule(ctx)
 
     # the log|det dx/dz| term is the preconditioning transform's inverse log-Jacobian
     from ..report import reuse
